@@ -238,7 +238,7 @@ def r3_space_check(ctx, F):
         r = vf.render(v.ret(), b, short=True, vfx=v)
         tag = adt.rsplit("::", 1)[-1]
         conds = [vf.render(v.operand(b.term(bb)[1], bb, len(b.stmts(bb))), b, short=True) for bb in b.reachable() if b.term(bb)[0] == "switch"]
-        ok = any(t.startswith("Gt(") and "available_bytes(self)" in t for t in conds) and "Err(" in r
+        ok = any(t.startswith("Lt(") and "available_bytes(self)" in (vf.split_call(t) or ("", ["", ""]))[1][0] for t in conds) and "Err(" in r
         ctx.check("R3-space-check", tag + "::check_available_space/refuses", ok,
                   "%s::check_available_space no longer refuses amounts larger than available_bytes(): `%s`" % (tag, r[:200]), loc=b.loc())
     # account_written(n) only after a check (fusedev): callers are the checked methods or closures of them
@@ -253,6 +253,13 @@ def r3_space_check(ctx, F):
                 owner = chain[-1]
                 family = chain + [x for x in F.fns.values() if x.owner == owner.key and x.kind == "coroutine"]
                 ok = owner.self_adt == FDW and any(x.name == "check_available_space" for y in family for x in live_calls(y))
+                if not ok and owner.self_adt == FDW:
+                    # a private helper: every one of its call sites must come after the caller's own space check
+                    sites = [(y, x) for y in F.fns.values() for x in live_calls(y) if (x.res or x.fn) == owner.key]
+                    ok = bool(sites)
+                    for (y, x) in sites:
+                        cs = [z for z in live_calls(y) if z.name == "check_available_space"]
+                        ok = ok and y.self_adt == FDW and any(y.dominates(z.bb, x.bb) for z in cs)
                 ctx.check("R3-space-check", "account_written@%s" % (owner.name if owner else b.name), ok,
                           "account_written is called from %s, which performs no space check" % b.key, loc=c.loc())
     ctx.floor("R3-space-check", 40)
@@ -274,7 +281,7 @@ def r3_truncate(ctx, F):
         rem_txt = vf.render(a[2], b, short=True)
         ctx.check("R3-truncate", nm + "/from-zero", a[1][0] == "K" and a[1][1] == 0, "%s: truncation does not start at offset 0" % nm, loc=c.loc())
         g = [(vf.render(cond, b, short=True), lab) for (cond, lab, u) in v.guards(c.bb)]
-        want = "Gt(VolatileSlice::len(%s), %s)" % (vf.render(a[0], b, short=True), rem_txt)
+        want = vf.fact("Gt(VolatileSlice::len(%s), %s)" % (vf.render(a[0], b, short=True), rem_txt))
         ctx.check("R3-truncate", nm + "/guard", (want, "otherwise") in g,
                   "%s: the truncation to `%s` is not on the `len > rem` edge (guards %s)" % (nm, rem_txt, [x for x in g if "len" in x[0]]), loc=c.loc(), detail=want)
         # the loop stops at rem == 0 and rem -= len(local)
@@ -331,7 +338,7 @@ def r3_split(ctx, F):
         ctx.check("R3-split", "FuseDevWriter/lens", "offset" in head[1] and "Vec::len(self.buf)" in head[1] and "Sub(Vec::len(self.buf), offset)" in tail[1],
                   "FuseDevWriter::split_at lengths are (%s / %s)" % (head[1][:120], tail[1][:120]), loc=frp[0].loc())
         g = [(vf.render(cond, b, roots, short=True), lab) for (cond, lab, u) in v.guards(frp[0].bb)]
-        ctx.check("R3-split", "FuseDevWriter/out-of-bounds", ("Lt(Vec::capacity(self.buf), offset)", 0) in g,
+        ctx.check("R3-split", "FuseDevWriter/out-of-bounds", (vf.neg_fact("Lt(Vec::capacity(self.buf), offset)"), "otherwise") in g,
                   "FuseDevWriter::split_at does not refuse offset > capacity before building the halves (guards %s)" % g, loc=frp[0].loc())
 
 
